@@ -16,11 +16,10 @@ remap, windows, intervals, `--last`, `--diff`):
 * `C02_unmapped_untouched`, `C02_hidden_only_in_delta` – mapping clauses, stated on the entries;
 * `C02_cumulative_cell` – a cumulative cell is the sum of the entries whose column is not later.
 
-With closing the full statement is `entries ~ Spec.ledgerEntries cfg days` (as multisets).
-`C02_closing_partial` proves its key step (a closing transaction books −T on the account and +T on
-Equity:Equity for the accumulated total T); the remaining induction over days (the accumulator equals
-the direct sum over `[previous closing day, s)`) is not mechanised — that clause is decided on every
-run by comparing the real output with the specification's rendering (monitor `report_equals_ledger`).
+With closing the statement is `entries ~ Spec.ledgerEntries cfg days` (as multisets): `C02_close` in
+`Properties/C02Close.lean` (with `C02_closing_day`, `C02_close_invariant`).  `C02_closing_partial` below is its
+key arithmetic step.  The monitor `report_equals_ledger` additionally compares the real output with the
+specification's rendering on every run.
 -/
 namespace Knut.C02
 open Knut Knut.Spec
